@@ -30,7 +30,10 @@ pub fn mk_dt_off(instant: i128, offset: i32) -> DateTime {
 /// instant of a DateTime (whatever its offset: whole-second offsets do not change the
 /// sub-second part, and timestamp() is offset independent)
 pub fn rd_dt(dt: &DateTime) -> i128 {
-    (dt.timestamp() as i128 + tl::EPOCH_1970_S as i128) * tl::NS + dt.nano() as i128
+    // read at offset 0: the getters of a value whose *local* reading is outside the range
+    // (possible in the outermost day) would panic, the instant itself is still well defined
+    let z = dt.set_offset(Offset::Fixed(0));
+    (z.timestamp() as i128 + tl::EPOCH_1970_S as i128) * tl::NS + z.nano() as i128
 }
 
 pub fn off_of_dt(dt: &DateTime) -> Offset {
